@@ -348,7 +348,9 @@ func (g *valueGen) elem(v reflect.Value, a *spec.Attr, path string) {
 	g.leaf(v, a, path, false)
 }
 
-var strLattice = []string{"a", "hello world", "ünï©ode ✓", "\xff\xfe\x00raw", " lead", "trail ", "multi\nline", "0", "false", "null", "x/y/z", "\"quoted\"", "a,b=c+d"}
+var strLattice = []string{"a", "hello world", "ünï©ode ✓", "\xff\xfe\x00raw", " lead", "trail ", "multi\nline", "0", "false", "null", "x/y/z", "\"quoted\"", "a,b=c+d",
+	// values that look like an encoding of something else
+	"base64:QUJD", "base64:", "hex:00ff", "0x1f", "b64:AAAA", "data:text/plain;base64,QQ==", "${var.x}", "%!s(MISSING)", "\\x00", "[]", "{}", "true"}
 
 // leaf stores a non-trivial value of the leaf type (zero only by chance or when
 // the lattice says so).
